@@ -88,8 +88,13 @@ Section Bodies.
                 if str_eqb functor_str g_time || str_eqb functor_str g_not then
                   parse_operator_goal functor_str args_str
                 else
-                  dop args <- rec_args args_str;
-                  pok (make_goal functor_str args)
+                  (* a goal without arguments written with empty parentheses: go() *)
+                  match trim args_str with
+                  | [] => pok (make_goal_no_args functor_str)
+                  | _ =>
+                      dop args <- rec_args args_str;
+                      pok (make_goal functor_str args)
+                  end
             end
     end.
 End Bodies.
